@@ -231,8 +231,12 @@ func (c *Codec) update(keys channel.Keys, keyDataTypes map[channel.Key]telem.Dat
 		}
 	}
 	slices.Sort(s.keys)
-	c.mu.updateAvailable.Store(true)
+	// Send the state before raising the flag. processUpdates clears the flag and then
+	// drains the channel: with the flag raised first, a drain that runs between the two
+	// steps clears it and finds nothing, and the state sent afterwards stays in the channel
+	// with the flag down until some later update.
 	c.mu.updates <- s
+	c.mu.updateAvailable.Store(true)
 }
 
 func (c *Codec) processUpdates() {
